@@ -291,29 +291,44 @@ func failingStaticCalls(w int) string {
 var failingRefs = map[int]string{}
 var failingRefsMu sync.Mutex
 
-// failingStaticReference is what the same two calls return when nothing else runs. These few calls are made before
-// the first concurrent run (they take the error path only).
+// failingStaticReference is what the same two calls return when nothing else runs. It is computed the first time it is
+// asked for, which is after the first concurrent run: a sequential call before it would initialise whatever the
+// library initialises lazily (time zone caches, lookup tables) and hide races on that state.
 func failingStaticReference(w int) string {
 	failingRefsMu.Lock()
 	defer failingRefsMu.Unlock()
-	if len(failingRefs) == 0 {
-		for key := 0; key < len(brokenStatic); key++ {
-			var texts []string
-			for k := 0; k < 2; k++ {
-				_, err := gtfs.ParseStatic(append([]byte(nil), brokenStatic[(key+k)%len(brokenStatic)]...), gtfs.ParseStaticOptions{})
-				texts = append(texts, fmt.Sprint(err))
-			}
-			failingRefs[key] = strings.Join(texts, " | ")
+	key := w % len(brokenStatic)
+	if r, ok := failingRefs[key]; ok {
+		return r
+	}
+	var texts []string
+	for k := 0; k < 2; k++ {
+		b := brokenStatic[(key+k)%len(brokenStatic)]
+		done := make(chan string, 1)
+		go func() {
+			defer func() {
+				if r := recover(); r != nil {
+					done <- fmt.Sprint("panic: ", r)
+				}
+			}()
+			_, err := gtfs.ParseStatic(append([]byte(nil), b...), gtfs.ParseStaticOptions{})
+			done <- fmt.Sprint(err)
+		}()
+		select {
+		case t := <-done:
+			texts = append(texts, t)
+		case <-time.After(20 * time.Second):
+			texts = append(texts, "hang: a sequential ParseStatic call made after the concurrent ones did not return within 20s")
 		}
 	}
-	return failingRefs[w%len(brokenStatic)]
+	failingRefs[key] = strings.Join(texts, " | ")
+	return failingRefs[key]
 }
 
 // RunRace runs G goroutines per topology member, R times, without gates (for the race detector), then lets
 // every goroutine walk and hash every result, and runs concurrent ParseStatic calls on a shared buffer.
 func RunRace(id string, c Case, g, reps int) Record {
 	rec := Record{G: "race", Case: id}
-	failingStaticReference(0)
 	fmt.Fprintf(os.Stderr, "TOPOLOGY %s\n", id)
 	for rep := 0; rep < reps; rep++ {
 		opts, inputs, _ := objects(c.Topo)
